@@ -1249,10 +1249,11 @@ pub (in crate::llir::lower) fn assign_registers(
     // For detecting multiple names that represent the same register for non-scratch registers;
     // Presenting warnings on this is particularly important for old ECL subs with parameters,
     // as those parameters may alias registers.
-    #[derive(Debug, Copy, Clone, PartialEq, Eq, Hash)]
+    // (ordered maps, so that the warnings below come out in the same order on every run)
+    #[derive(Debug, Copy, Clone, PartialEq, Eq, PartialOrd, Ord, Hash)]
     enum UsedName { RegId(RegId), DefId(DefId) }
     struct UsedNameData<'a> { span: Span, note: Option<&'a str> }
-    let mut clashing_names_for_regs = IdMap::<RegId, IdMap<UsedName, UsedNameData>>::new();
+    let mut clashing_names_for_regs = BTreeMap::<RegId, BTreeMap<UsedName, UsedNameData>>::new();
 
     let explicitly_used_regs = get_explicitly_used_regs(code);
 
